@@ -18,7 +18,7 @@ struct C15Sys {
         for (int i = 0; i < nb; ++i) { int p = (shape == 0) ? i : (shape == 1 ? (i == 0 ? 0 : 1) : r.I(0, i)); par[i] = p; nkids[p]++; }
         for (int i = 0; i < nb; ++i) {
             MobilizedBody& parent = rs.matter.updMobilizedBody(MobilizedBodyIndex(par[i]));
-            int ty = mode == 2 ? 16 : r.I(0, NMOBTYPES - 1); bool rev = r.I(0, 3) == 0;
+            int ty = mode == 2 ? 16 : r.I(0, NMOBTYPES_ALL - 1); bool rev = r.I(0, 3) == 0;
             bool massless = mode == 2 || ((mode == 1 || mode == 3) && nkids[i + 1] > 0 && r.I(0, 2) == 0);
             // mode 3: also massless welded leaves (marker frames), so that a parent can have a child whose whole subtree is massless
             // before or after a sibling subtree that has mass
